@@ -209,7 +209,9 @@ def api_job(job):
 
     seed, aggs = job
     rng = random.Random(seed)
-    case = gen.gen_case(rng, pi_method="bootstrap", office="S", n_states=3, n_unexpected=0, aggregates=list(aggs), alphas=[0.9], blocklist=False)
+    # close contests in six states, half of the units outstanding: the summary is uncertain, so its three numbers differ per level
+    case = gen.gen_case(rng, pi_method="bootstrap", office="S", n_states=6, n_units=96, tossup=True, frac_reporting=0.5, n_unexpected=0, aggregates=list(aggs), alphas=[0.9],
+                        blocklist=False)
     r = run_impl.run_case(case, want_client=True)
     out = {"job": [seed, list(aggs)], "ok": r["ok"], "exc": r["exc"]}
     if not r["ok"]:
@@ -219,6 +221,18 @@ def api_job(job):
         weights = {s: weights[s] for s in sorted(weights, reverse=True)}          # written in reverse alphabetical order by the caller
         df = r["client"].get_national_summary_votes_estimates(weights, 5, [0.7, 0.9])
         out["summary"] = df.to_dict("records")
+        # the table handed to the caller against the model's own answer, level by level (prediction, lower, upper)
+        try:
+            mdl = r["client"].model
+            out["direct"] = {}
+            for a in (0.7, 0.9, 0.99):
+                d_ = mdl.get_national_summary_estimates(dict(weights), 5, a)
+                out["direct"][str(a)] = [float(x) for x in (d_["margin"] if isinstance(d_, dict) else d_)]
+            df3 = r["client"].get_national_summary_votes_estimates(weights, 5, [0.99, 0.7, 0.9])
+            out["summary3"] = df3.to_dict("records")
+            r["client"].get_national_summary_votes_estimates(weights, 5, [0.7, 0.9])
+        except Exception as e3:  # noqa: BLE001
+            out["direct_exc"] = (type(e3).__name__, str(e3)[:200])
         # a second summary call on the same client with another weighting / base: a function of the contests only
         weights2 = {s: float(2 * i + 1) for i, s in enumerate(sorted(case["states"]))}
         df2 = r["client"].get_national_summary_votes_estimates(weights2, 40, [0.9])
@@ -350,7 +364,17 @@ def run(chk):
             ref = o["summary"]
         elif o["summary"] != ref:
             chk.violation(f"national summary depends on the requested aggregates: {o['job'][1]} gives {o['summary']}, {agg_sets[0]} gives {ref}", replay, {"kind": "history-differs"})
-        for tag, rows, exp, alphas_ in (("first", o["summary"], o.get("expected1"), (0.7, 0.9)), ("second", o.get("summary2", []), o.get("expected2"), (0.9,))):
+        if "direct_exc" in o:
+            chk.violation(f"national summary at three levels through the client fails: {o['direct_exc']}", replay, {"kind": "history-fails"})
+        for row in o.get("summary3", []):
+            for a, (pred_d, lo_d, hi_d) in o.get("direct", {}).items():
+                got3 = (row.get("agg_pred"), row.get(f"lower_{a}"), row.get(f"upper_{a}"))
+                if not all(isinstance(v, (int, float)) and abs(v - w) <= 1e-9 for v, w in zip(got3, (pred_d, lo_d, hi_d))):
+                    chk.violation(f"national summary table for levels [0.99, 0.7, 0.9]: (agg_pred, lower_{a}, upper_{a}) = {got3} but the model's summary at level {a} is "
+                                  f"{(pred_d, lo_d, hi_d)}", replay, {"kind": "table-vs-model"})
+                    break
+        for tag, rows, exp, alphas_ in (("first", o["summary"], o.get("expected1"), (0.7, 0.9)), ("second", o.get("summary2", []), o.get("expected2"), (0.9,)),
+                                        ("three-level", o.get("summary3", []), o.get("expected1"), (0.99, 0.7, 0.9))):
             for row in rows:
                 if exp is not None and abs(row["agg_pred"] - exp) > 0.0051:
                     chk.violation(f"{tag} national summary call: prediction {row['agg_pred']} but base + weights of the contests with positive margin = {exp}", replay,
